@@ -211,20 +211,15 @@ def short(fn):
 
 
 def hint(platform, url):
-    """triage label only: 'odd' when the string has characters outside the URL grammar of the quantifier, else the route
-    word that comes first in the string"""
-    if any(c in url for c in "[]℀") or any(ord(c) < 33 or ord(c) > 126 for c in url):
-        odd = "odd-chars"
-    else:
-        odd = None
-    best, pos = None, None
-    low = url
+    """triage label only: 'bracket-or-nfkc' when the string has '[', ']' or a character that NFKC-normalises to a delimiter, else the route
+    word of ref_c19.ROUTE_WORDS (priority order) found in the string"""
+    if any(c in url for c in "[]℀"):
+        return "bracket-or-nfkc"
+    best = None
     for w in R.ROUTE_WORDS[platform]:
-        i = low.find(w)
-        if i >= 0 and (pos is None or i < pos or (i == pos and len(w) > len(best))):
-            best, pos = w, i
-    if odd:
-        return odd
+        if w in url:
+            best = w
+            break
     return best or "no-route"
 
 
@@ -402,7 +397,8 @@ def depth_of(tier):
 
 def sec_paths(cx, tier, seed, param):
     """every path of 0..D segments over the platform's vocabulary whose first segment is `first` (None: the empty path),
-    with and without a trailing slash, bare and with the platform's query/fragment decorations (decorations up to depth D-1)"""
+    with and without a trailing slash (at depth D: with it only), bare and with the platform's query/fragment decorations
+    (decorations up to depth D-1)"""
     platform, first = param
     S = R.SPEC[platform]
     D = depth_of(tier)
@@ -423,7 +419,7 @@ def sec_paths(cx, tier, seed, param):
         for host, maxd, wrap in bases:
             if maxd is not None and len(t) > maxd + (0 if tier == "quick" else 1):
                 continue
-            for p in paths:
+            for p in (paths if len(t) < D else paths[1:]):      # at full depth: the trailing-slash form only
                 for deco in (decos if len(t) < D else decos[:1]):
                     u = wrap(host, p) + deco
                     check_platform(cx, platform, u)
@@ -438,13 +434,13 @@ def sec_hosts(cx, tier, seed, param):
     S = R.SPEC[platform]
     D = 2 if tier == "quick" else 3
     vocab = S["vocab"]
-    for host in [S["host"]] + S["alt_hosts"]:
+    for host in [S["host"]] + (S["alt_hosts"][:2] if tier == "quick" else S["alt_hosts"]):
         base = form % host
         for d in range(0, D + 1):
             for t in itertools.product(vocab, repeat=d):
                 p = ("/" + "/".join(t)) if t else ""
                 for pp in ((p, p + "/") if d < 3 else (p,)):
-                    for deco in (S["decos"] if d < 3 else S["decos"][:1]):
+                    for deco in (S["decos"] if d < D else S["decos"][:1]):
                         check_platform(cx, platform, base + pp + deco)
 
 
@@ -457,7 +453,7 @@ def sec_query(cx, tier, seed, param):
     for n in range(0, 4):
         for q in itertools.product(items, repeat=n):
             qs = ("?" + "&".join(q)) if q else ""
-            for frag in S["frags"]:
+            for frag in (S["frags"] if (n < 3 or tier != "quick") else S["frags"][:2]):
                 check_platform(cx, platform, route + qs + frag)
     cx.col.sample({"section": "query", "platform": platform, "url": route + "?" + "&".join(items[:2]) + S["frags"][-1]})
 
@@ -474,7 +470,7 @@ def sec_relative(cx, tier, seed, param):
         p = "/".join(t)
         for lead in ("/", ""):
             for trail in ("", "/"):
-                for deco in S["decos"] + ["?story_fbid=4", "?id=5", "#f"]:
+                for deco in S["decos"] + (["?id=5"] if tier == "quick" else ["?story_fbid=4", "?id=5", "#f"]):
                     check_platform(cx, "facebook", lead + p + trail + deco)
 
 
@@ -509,11 +505,12 @@ def sec_affix(cx, tier, seed, param):
     """pre + host + suf, pre and suf every string of length <= 2 over SHORT_ALPHA (thorough: suf <= 3), on the platform's
     functions; plus host + route + suf for the platform's one-word routes (suf <= 2)"""
     platform, host = param
-    L = 2
-    pres = list(short_strings(R.SHORT_ALPHA, L))
-    sufs = list(short_strings(R.SHORT_ALPHA, L if tier == "quick" else 3))
+    pres = list(short_strings(R.SHORT_ALPHA, 2))
+    sufs = list(short_strings(R.SHORT_ALPHA, 2 if tier == "quick" else 3))
     for pre in pres:
         for suf in sufs:
+            if tier == "quick" and len(pre) == 2 and len(suf) == 2:
+                continue
             check_platform(cx, platform, pre + host + suf, nontriv=False)
     sufs2 = list(short_strings(R.SHORT_ALPHA, 2))
     for w in R.SPEC[platform]["vocab"]:
@@ -673,14 +670,14 @@ def main():
         "fragments": dict((p, R.SPEC[p]["frags"]) for p in PLATFORMS),
         "relative_facebook_path_segments": 3 if a.tier == "quick" else 4,
         "short_strings": {"alphabet": list(R.SHORT_ALPHA), "max_length": 4 if a.tier == "quick" else 5, "odd_strings": len(R.ODD_STRINGS)},
-        "affix": {"prefix_length": 2, "suffix_length": 2 if a.tier == "quick" else 3},
+        "affix": {"prefix_length": 2, "suffix_length": 2 if a.tier == "quick" else 3, "quick": "prefix + suffix length <= 3"},
         "random_per_platform": 4 * (1500 if a.tier == "quick" else 40000),
         "flags": ["allow_relative_urls x {False, True}", "fix_common_mistakes x {True, False}"],
     }
     col.rule = (
         "per platform (facebook, youtube, twitter, instagram, telegram, google): every path of 0..%d segments over the platform's "
-        "route vocabulary + id-like / handle-like / too-short / too-long / empty segments (17-19 tokens), with and without trailing "
-        "slash, bare and with query/fragment decorations, on the platform's main host(s) (youtu.be and twitter '#!' fragment routing "
+        "route vocabulary + id-like / handle-like / too-short / too-long / empty segments (12-19 tokens), with and without trailing "
+        "slash (full depth: with it only), bare and with query/fragment decorations (up to depth-1), on the platform's main host(s) (youtu.be and twitter '#!' fragment routing "
         "up to depth %d); %d host forms (schemes, //, www/m, userinfo, port, upper case, leading space, look-alike and foreign hosts, "
         "host inside path/query) x alternative platform domains x paths of 0..%d segments; routes x every sequence of 0..3 query "
         "items over the platform's keys x fragments; relative facebook URLs; the curated truncated routes; every string of length "
